@@ -96,6 +96,16 @@ func sourceForTable(query *sql.Query, opts *Opts) (core.RowSource, error) {
 			}
 		}
 
+		// Fields whose expression duplicates the expression of an included field
+		// need to be included too, otherwise they can't be resolved by name later.
+		for i, field := range tableFields {
+			for j := 0; j < i && !includedFields[i]; j++ {
+				if includedFields[j] && tableFields[j].Expr.String() == field.Expr.String() {
+					includedFields[i] = true
+				}
+			}
+		}
+
 		result := make(core.Fields, 0, len(tableFields))
 		for i, included := range includedFields {
 			if included {
